@@ -21,10 +21,19 @@ def cstrip(n):
             return n
 
 
-def source_name(n):
-    """the name a C++ expression is 'about': last member on its access chain, or the parameter name"""
+def source_name(n, F=None, depth=0):
+    """the name a C++ expression is 'about': last member on its access chain, or the parameter name.  With F given, a local
+    variable that has exactly one definition (its initialiser) and is never assigned stands for that initialiser."""
     n = cstrip(n)
     k = n["k"]
+    if F is not None and k == "DeclRefExpr" and depth < 4 and n.get("dk") in ("local", None):
+        decls = [x for x in F.walk() if x["k"] == "VarDecl" and x.get("did") == n.get("did") and x.get("c")]
+        writes = [x for x in F.walk() if x["k"] in ("BinaryOperator", "CompoundAssignOperator") and x.get("op", "").endswith("=")
+                  and x["op"] not in ("==", "!=", "<=", ">=") and cstrip(x["c"][0])["k"] == "DeclRefExpr" and cstrip(x["c"][0]).get("did") == n.get("did")]
+        if len(decls) == 1 and not writes and n.get("did") is not None:
+            r = source_name(decls[0]["c"][0], F, depth + 1)
+            if r is not None:
+                return r
     if k == "MemberExpr":
         if n["member"] == "impl_" and n.get("c") and cstrip(n["c"][0])["k"] != "CXXThisExpr":
             return source_name(n["c"][0])
@@ -267,9 +276,11 @@ def c19_wrappers(ctx, prog, cprog):
             a = ccalls[0]["c"][1:]
             h = source_name(a[0])
             names = [source_name(x) for x in a[1:]]
+            resolved = [source_name(x, F) for x in a[1:]]
             det["args"] = names
             ok = h == "impl_" or chain_any(a[0]) and "impl_" in expr_str(a[0])
-            ok = ok and names == argnames
+            # a local with a single definition stands for its initialiser (`int ms = timeout.count(); reproc_wait(p, ms)`)
+            ok = ok and len(names) == len(argnames) and all(w in (x, y) for w, x, y in zip(argnames, names, resolved))
             # the result variable feeds error_code_from and (where a value is returned) the value itself
             rv = None
             par = F.nodes.get(F.parent.get(ccalls[0]["id"]))
